@@ -251,6 +251,9 @@ Judge(mm, p, e) ==
         Blocked(x) == \E y \in Resurrected : y.db = x.db /\ y.key = x.key /\ y.h.lid # x.h.lid
         Why(x) == IF Mix(x) \/ Blocked(x) THEN "expired-records-skipped-one-by-one"
                   ELSE IF B(x).upd /\ B(x).chg THEN "taken-with-update-flag-then-terms-changed"
+                  \* the log holds NO lock record of this hold: nothing of it was replayed (so no admission was re-run) - it joined a key
+                  \* whose oldest holder had another persistence class and inherited that holder's delay (A26)
+                  ELSE IF B(x).inh /\ mm.havedisk /\ LockRecsOf(x.db, x.key, x.h.lid) = {} THEN "class-inherited-from-oldest-holder"
                   ELSE IF (x.n >= 2 \/ B(x).shared) /\ ChgOnKey(x.db, x.key) THEN "count-admission-replayed-in-persist-order"
                   ELSE IF B(x).inh THEN "class-inherited-from-oldest-holder"
                   ELSE IF B(x).cls \in {"dflt", "pct"} /\ Delay(x) >= 2 /\ ~Forced(x) THEN "delay-ge-2"
